@@ -131,8 +131,8 @@ func newKeys() list.ReadKeyChangePayload {
 
 func storeCfg() *anystore.Config {
 	return &anystore.Config{
-		ReadConnections:         1,
-		SQLiteConnectionOptions: map[string]string{"synchronous": "off"},
+		ReadConnections:                           1,
+		SQLiteConnectionOptions:                   map[string]string{"synchronous": "off"},
 		SQLiteGlobalPageCachePreallocateSizeBytes: -1,
 	}
 }
